@@ -4,6 +4,8 @@ import (
 	"encoding/json"
 	"flag"
 	"fmt"
+	"go/types"
+	"golang.org/x/tools/go/ssa"
 	"os"
 	"os/exec"
 	"path/filepath"
@@ -202,6 +204,9 @@ func main() {
 	}
 	for _, k := range keys {
 		e.VerifyFunc(k)
+	}
+	if *only == "" {
+		e.checkConstInvAllocators(*prop)
 	}
 	e.runLemmas(*prop)
 	tGen := time.Since(t0)
@@ -551,8 +556,61 @@ func main() {
 			"allocation never fails; make([]T,n) panics iff n<0 or n>2^62; every existing slice/sequence has length <= 2^61",
 			"distinct collection objects never share representation objects (ownership; established by the freshness postconditions of the constructors)",
 		}
-		for _, a := range e.contracts.Assumes {
-			trusted = append(trusted, "assumed contract: "+a)
+		// contracts applied at call sites of this run that no verified body stands behind
+		implemented := map[string]bool{}
+		for k, fs := range e.contracts.Funcs {
+			if fs.IsIface || fs.Assume || fs.Flags["noverify"] {
+				continue
+			}
+			pkg := k[:strings.Index(k, ".")]
+			for _, ik := range fs.Implements {
+				implemented[pkg+"."+ik] = true
+				implemented[ik] = true
+			}
+		}
+		var usedKeys []string
+		for k := range e.usedSpecs {
+			usedKeys = append(usedKeys, k)
+		}
+		sort.Strings(usedKeys)
+		for _, k := range usedKeys {
+			fs := e.contracts.Funcs[k]
+			if fs == nil {
+				continue
+			}
+			switch {
+			case fs.Assume:
+				trusted = append(trusted, "assumed contract applied at a call site of this run: "+k)
+			case fs.IsIface && fs.Flags["trusted"]:
+				trusted = append(trusted, "interface contract applied on trust (declared trusted: the implementations are not verified against it): "+k)
+			case fs.IsIface && !implemented[k] && !implemented[shortKey(k)]:
+				trusted = append(trusted, "interface contract applied at a call site, no implementation in the repository is verified against it: "+k)
+			case fs.Flags["noverify"]:
+				trusted = append(trusted, "function contract applied but its body is not verified (noverify): "+k)
+			}
+		}
+		// type-level hypotheses (assumed of every receiver, never proved) of the types whose methods were verified
+		seenT := map[string]bool{}
+		for _, k := range keys {
+			if fn := e.funcs[k]; fn != nil {
+				if ts, _ := e.typeSpecOf(fn); ts != nil && !seenT[ts.Pkg+"."+ts.Name] {
+					seenT[ts.Pkg+"."+ts.Name] = true
+					for _, h := range ts.Hypotheses {
+						trusted = append(trusted, "type hypothesis (assumed of every receiver, never proved): "+ts.Pkg+"."+ts.Name+": "+h.Text)
+					}
+					for _, h := range ts.ConstInvs {
+						trusted = append(trusted, "construction invariant (assumed of every receiver; proved at every allocation of the type under its property tag "+strings.Join(h.Tags, ",")+"): "+ts.Pkg+"."+ts.Name+": "+h.Text)
+					}
+				}
+			}
+		}
+		var gnn []string
+		for g := range e.contracts.GlobalNonNil {
+			gnn = append(gnn, g)
+		}
+		sort.Strings(gnn)
+		if len(gnn) > 0 {
+			trusted = append(trusted, "package-level variables assumed initialised non-nil and never reassigned: "+strings.Join(gnn, ", "))
 		}
 		for _, x := range ext {
 			trusted = append(trusted, "external (result unconstrained, heap untouched): "+x)
@@ -741,4 +799,95 @@ func normName(n string) string {
 		}
 	}
 	return n
+}
+
+// checkConstInvAllocators: a construction invariant (constinv) is assumed of every receiver of its type. That is sound
+// when (1) it mentions only immutable fields of the object and (2) every function of the repository that allocates the
+// type is verified in this run (its constinv obligations are generated at its returns). Both are checked here,
+// syntactically, on the current source; a violation is a failed obligation.
+func (e *Engine) checkConstInvAllocators(prop string) {
+	fieldRe := regexp.MustCompile(`this\.([A-Za-z_][A-Za-z_0-9]*)`)
+	var tkeys []string
+	for k := range e.contracts.Types {
+		tkeys = append(tkeys, k)
+	}
+	sort.Strings(tkeys)
+	for _, tk := range tkeys {
+		ts := e.contracts.Types[tk]
+		named := e.typeByKey[tk]
+		var mine []*Clause
+		for _, c := range ts.ConstInvs {
+			if len(c.Tags) == 0 || prop == "" {
+				mine = append(mine, c)
+				continue
+			}
+			for _, t := range c.Tags {
+				if t == prop {
+					mine = append(mine, c)
+				}
+			}
+		}
+		if len(mine) == 0 {
+			continue
+		}
+		fail := func(name, note string, c *Clause) {
+			o := &Obligation{Name: name, Func: tk, Kind: "exists", Status: "error", Note: note, Loc: fmt.Sprintf("%s:%d", ts.File, ts.Line)}
+			if c != nil {
+				o.Clause = c.Text
+			}
+			e.obls = append(e.obls, o)
+			e.oblByName[o.Name] = o
+		}
+		if named == nil {
+			fail(tk+".constinv.type", "type with construction invariants not found in the repository", nil)
+			continue
+		}
+		for _, c := range mine {
+			for _, m := range fieldRe.FindAllStringSubmatch(c.Text, -1) {
+				if ts.Immutable[m[1]] == "" {
+					fail(fmt.Sprintf("%s.constinv%d.immutable.%s", tk, c.Ord, m[1]), "a construction invariant may only mention immutable fields", c)
+				}
+			}
+		}
+		var fkeys []string
+		for k := range e.funcs {
+			fkeys = append(fkeys, k)
+		}
+		sort.Strings(fkeys)
+		for _, fk := range fkeys {
+			fn := e.funcs[fk]
+			allocs := false
+			for _, b := range fn.Blocks {
+				for _, ins := range b.Instrs {
+					if a, ok := ins.(*ssa.Alloc); ok {
+						if n, ok := derefNamed(a.Type()); ok && n.Origin() == named.Origin() {
+							if _, isStruct := a.Type().(*types.Pointer).Elem().Underlying().(*types.Struct); isStruct {
+								allocs = true
+							}
+						}
+					}
+				}
+			}
+			if !allocs {
+				continue
+			}
+			owner := fk
+			if i := strings.Index(owner, "$"); i >= 0 {
+				owner = owner[:i]
+			}
+			fs := e.contracts.Funcs[owner]
+			ok := fs != nil && !fs.IsIface && !fs.Assume && !fs.Flags["noverify"]
+			if ok && prop != "" {
+				ok = false
+				for _, p := range fs.Props {
+					if p == prop {
+						ok = true
+					}
+				}
+			}
+			if !ok {
+				fail(fmt.Sprintf("%s.constinv.allocator.%s", tk, shortKey(fk)), "a function that allocates a type with construction invariants must be verified for this property (its constinv obligations establish them)", mine[0])
+			}
+		}
+	}
 }
